@@ -1,5 +1,7 @@
 SPECIFICATION Spec
 CONSTANT Calls <- K3
+CONSTANT Failing <- NoFail
+CONSTANT GiveBackOnFailure = FALSE
 CONSTANT Fix_RegisterAtomic = FALSE
 CONSTANT Fix_ExplicitCheck = TRUE
 INVARIANT NoSharedId
